@@ -70,6 +70,13 @@ def contract(module, attr, cond, snapshots=()):
     # icontract requires snapshot decorators to sit *above* the postcondition
     for name, capture in snapshots:
         wrapped = icontract.snapshot(capture, name=name)(wrapped)
+    # code that introspects the callable (create_window reads window_*.__defaults__) must see
+    # what it saw before the monitor was attached
+    for attr_ in ('__defaults__', '__kwdefaults__'):
+        try:
+            setattr(wrapped, attr_, getattr(orig, attr_))
+        except (AttributeError, TypeError):
+            pass
     n = _patch_everywhere(orig, wrapped)
     _installed[key] = (orig, wrapped, cname, n)
     return wrapped
